@@ -314,18 +314,6 @@ func specPop(s *States, sb *vBus) uint16 {
 	return specW(h, l)
 }
 
-// conditional variants (fork-free): performed only when c holds.  The bus is
-// a trace, so a conditional access cannot be expressed with vIte; the model
-// therefore returns both alternatives and the harness forks on the *model's*
-// condition.  To stay fork-free we instead split on the condition explicitly
-// with vCase, an ordinary branch the engine explores as two paths.
-func vCase(c bool) bool {
-	if c {
-		return true
-	}
-	return false
-}
-
 func specFetch(s *States, sb *vBus) uint8 {
 	v := sb.Get(s.PC)
 	s.PC++
